@@ -38,3 +38,9 @@ Theorem C24_timer_covers_pending : forall c, (0 < batchSize c)%nat -> forall l s
   timed c = true -> qobjs s <> [] -> exited s = false -> armed s = true.
 Proof. exact timer_covers_pending. Qed.
 Print Assumptions C24_timer_covers_pending.
+
+Theorem C24_untimed_schedule_independent : forall c, (0 < batchSize c)%nat -> timed c = false ->
+  forall l s, run c l = Some s -> chan s = [] ->
+  (map b_ws (batches s), qobjs s) = part (batchSize c) (items_of (seq0 c) false l) [].
+Proof. exact untimed_drained. Qed.
+Print Assumptions C24_untimed_schedule_independent.
